@@ -49,13 +49,14 @@ type copyRun struct {
 	fired  int32
 	cancel context.CancelFunc
 	// latency
-	rng      *rand.Rand
-	rngMu    sync.Mutex
-	maxDelay time.Duration
-	hold     map[int]time.Duration // hold a node's Push open
-	onFetch  map[int]func()        // run once when the source is asked for the node (file-system faults)
-	instant  []string              // per-push closure observations "n ok"
-	truthDst content.ReadOnlyStorage
+	rng        *rand.Rand
+	rngMu      sync.Mutex
+	maxDelay   time.Duration
+	hold       map[int]time.Duration // hold a node's Push open
+	onFetch    map[int]func()        // run once when the source is asked for the node (file-system faults)
+	onAnyFetch func()                // run at every source fetch, before it (cancellation points)
+	instant    []string              // per-push closure observations "n ok"
+	truthDst   content.ReadOnlyStorage
 }
 
 func newCopyRun(u *Universe, seed int64) *copyRun {
@@ -132,6 +133,9 @@ func (s *instrSrc) Fetch(ctx context.Context, d ocispec.Descriptor) (io.ReadClos
 		}
 	}
 	s.r.delay()
+	if s.r.onAnyFetch != nil {
+		s.r.onAnyFetch()
+	}
 	s.r.mu.Lock()
 	hook := s.r.onFetch[n]
 	delete(s.r.onFetch, n)
